@@ -30,8 +30,10 @@ structure Inv (c : Sys) : Prop where
   tagMain : ∀ k, ∀ v ∈ c.main k, v.tx = mainTx
   tagTx : ∀ t st, c.txs t = some st → ∀ k, ∀ v ∈ st k, v.tx = t
 
-/-- the refinement relation -/
-structure R (c : Sys) (s : State) : Prop where
+/-- the refinement relation.  `cl`: the transactions that are inside Commit / Rollback (already removed
+    from the real registry, their UpdateTx / DeleteTx still to come): they read nothing any more, so
+    the collector may already have taken what only they could see -/
+structure Rx (cl : List Nat) (c : Sys) (s : State) : Prop where
   inv : Inv c
   clock : s.clock = c.counter
   dom : s.dom = c.dom
@@ -39,8 +41,11 @@ structure R (c : Sys) (s : State) : Prop where
   own : ∀ t ∈ s.open_, ∀ k, t.own k = (c.ownLatest t.id k).map absV
   hist : ∀ k, ∃ pre, s.hist k = pre ++ (c.main k).map absV
           ∧ (∀ p ∈ pre, ∀ v ∈ c.main k, p.stamp < v.seq)
-          ∧ (pre ≠ [] → ∃ h, (c.main k).head? = some h ∧ ∀ r ∈ c.reg, h.seq < r.seq)
+          ∧ (pre ≠ [] → ∃ h, (c.main k).head? = some h ∧ ∀ r ∈ c.reg, r.id ∉ cl → h.seq < r.seq)
   histDom : ∀ k, s.hist k ≠ [] → k ∈ c.dom
+
+/-- the refinement relation of the sequential model: no transaction is inside Commit / Rollback -/
+abbrev R (c : Sys) (s : State) : Prop := Rx [] c s
 
 theorem Inv.init : Inv ({} : Sys) := by
   constructor <;> simp [Store.empty, SortedSeq, Live, Sys.hasContent]
@@ -61,7 +66,7 @@ theorem Inv.tx_sub_all {c : Sys} (h : Inv c) {t : Nat} {st : Store} (ht : c.txs 
   (h.allMem k v).mpr (Or.inr ⟨t, st, ht, hv⟩)
 
 /-- registry lookups agree between spec and model -/
-theorem R.find_eq {c : Sys} {s : State} (h : R c s) (t : Nat) :
+theorem Rx.find_eq {c : Sys} {s : State} {cl : List Nat} (h : Rx cl c s) (t : Nat) :
     (find s t).map (fun x => (x.id, x.level, x.beginStamp)) = (c.reg.find? (·.id = t)).map (fun r => (r.id, r.level, r.seq)) := by
   have := h.reg
   unfold find
@@ -86,7 +91,7 @@ theorem R.find_eq {c : Sys} {s : State} (h : R c s) (t : Nat) :
         simp [hx, ha]
         exact ih r h4
 
-theorem R.mem_open {c : Sys} {s : State} (h : R c s) {t : STx} (ht : t ∈ s.open_) :
+theorem Rx.mem_open {c : Sys} {s : State} {cl : List Nat} (h : Rx cl c s) {t : STx} (ht : t ∈ s.open_) :
     (⟨t.id, t.level, t.beginStamp⟩ : TxRec) ∈ c.reg := by
   have := h.reg
   have hm : (t.id, t.level, t.beginStamp) ∈ s.open_.map (fun t => (t.id, t.level, t.beginStamp)) :=
